@@ -434,6 +434,7 @@ func (c *m2) translate2() (out string, err error) {
 		}
 	}()
 	fn := c.fn
+	c.checkLocalNames5()
 	if fn.Type.TypeParams != nil {
 		c.fail(fn, "generic function")
 	}
@@ -549,7 +550,7 @@ func (c *m2) translate2() (out string, err error) {
 		if c.spec.from != "" {
 			// a fragment yields the variables declared before it that it assigns
 			for _, o := range c.assigned2(c.body, c.body[0].Pos()) {
-				if c.fieldObjs != nil && c.fieldObjs[o.Name()] == o {
+				if c.fieldObjs != nil && c.fieldObjs[strings.TrimPrefix(o.Name(), synthMark)] == o {
 					continue
 				}
 				c.addWFieldT(coqName(o.Name()), c.mt(o.Type(), c.body[0]))
@@ -655,6 +656,7 @@ func (c *m2) translate2() (out string, err error) {
 
 // buildKernels2 returns the text of Gen/Kernels2.v, or the list of errors
 func buildKernels2(repo string, specs []k2spec) (string, []string) {
+	repoRoot5 = repo
 	consts := &tableSet{defs: map[string]string{}, lens: map[string]int{}}
 	pkgs := map[string]*pkgInfo{}
 	funcs := map[string]*fsig{}
